@@ -58,9 +58,10 @@ AdvClass(S0, cls) ==
       [] cls = "MutTerm"    -> MutTermActs(S0)
       [] cls = "BadWrite"   -> BadWriteAckActs(S0)
       [] cls = "BadSend"    -> BadSendActs(S0)
+      [] cls = "SendEdge"   -> SendEdgeActs(S0)
 
 AdvWeights == <<"DupUpdate", "AnyRecv", "AnyRecv", "AnyAck", "AnyTimeout", "AnyTimeout", "AnyClose",
-                "MutRecv", "MutRecv", "MutTerm", "MutTerm", "BadWrite", "BadSend">>
+                "MutRecv", "MutRecv", "MutTerm", "MutTerm", "BadWrite", "BadSend", "SendEdge", "SendEdge", "SendEdge">>
 
 PickFrom(X, fallback) == IF X = {} THEN fallback ELSE RandomElement(X)
 
